@@ -903,6 +903,45 @@ func (g *gen) stmt() {
 			g.f("closure-loopvar")
 			fs := g.fresh("fs")
 			base := g.expr(tInt, 1)
+			if g.r.Intn(3) == 0 && !g.off("goto-backward") && g.inSwitch == 0 {
+				// a loop made of a backward goto: every pass must get fresh variables for its := definitions
+				g.f("goto-backward")
+				i, x, lbl := g.fresh("gi"), g.fresh("gx"), g.fresh("Again")
+				n := 2 + g.r.Intn(3)
+				op := []string{"*", "+", "-", "|"}[g.r.Intn(4)]
+				if g.r.Intn(2) == 0 {
+					g.line("var %s []func() int", fs)
+					g.line("%s := 0", i)
+					g.ind--
+					g.line("%s:", lbl)
+					g.ind++
+					g.line("%s := %s %s %s", x, i, op, base)
+					g.line("%s = append(%s, func() int { %s++; return %s })", fs, fs, x, x)
+					g.line("%s++", i)
+					g.line("if %s < %d {", i, n)
+					g.line("\tgoto %s", lbl)
+					g.line("}")
+					g.line("for _, fn := range %s {", fs)
+					g.line("\tfmt.Println(fn(), fn())")
+					g.line("}")
+				} else {
+					ps := g.fresh("ps")
+					g.line("var %s []*int", ps)
+					g.line("%s := 1", i)
+					g.ind--
+					g.line("%s:", lbl)
+					g.ind++
+					g.line("%s := %s %s %s", x, i, op, i)
+					g.line("%s = append(%s, &%s)", ps, ps, x)
+					g.line("if %s++; %s <= %d {", i, i, n)
+					g.line("\tgoto %s", lbl)
+					g.line("}")
+					g.line("for _, p := range %s {", ps)
+					g.line("\tfmt.Println(*p)")
+					g.line("}")
+				}
+				return
+			}
 			g.line("var %s []func() int", fs)
 			switch g.r.Intn(3) {
 			case 0:
